@@ -35,6 +35,14 @@ func parseError(err error) error {
 
 func (s *stream) Read(b []byte) (n int, err error) {
 	n, err = s.yamux().Read(b)
+	if n > 0 && err != nil {
+		// Deliver the bytes first. The error yamux returns together with data is
+		// the one of its window update send, i.e. the session's terminating
+		// error: when the connection ends with a plain EOF that is a bare io.EOF,
+		// and a stream that was cut short would look like one that was closed
+		// cleanly. The next Read reports the stream's own terminal state.
+		return n, nil
+	}
 	return n, parseError(err)
 }
 
